@@ -19,7 +19,20 @@ type comp func(in []M, out *Out, args []string)
 var comps = map[string]comp{}
 
 // Out writes trace events.
-type Out struct{ w *bufio.Writer }
+type Out struct {
+	w    *bufio.Writer
+	jf   *os.File // journal: survives a crash of the process (written unbuffered)
+	full bool     // journal every event, not only the start of each program
+}
+
+// Journal writes one line to the crash journal at once.
+func (o *Out) Journal(e M) {
+	if o.jf == nil {
+		return
+	}
+	b, _ := json.Marshal(e)
+	o.jf.Write(append(b, '\n'))
+}
 
 func (o *Out) Emit(e M) {
 	b, err := json.Marshal(e)
@@ -114,6 +127,15 @@ func main() {
 		panic(err)
 	}
 	out := &Out{w: bufio.NewWriterSize(of, 1<<20)}
+	if jf, err := os.Create(os.Args[3] + ".journal"); err == nil {
+		out.jf = jf
+		defer jf.Close()
+	}
+	for _, a := range os.Args[4:] {
+		if a == "fulljournal" {
+			out.full = true
+		}
+	}
 	c(plan, out, os.Args[4:])
 	out.w.Flush()
 	of.Close()
